@@ -52,7 +52,7 @@ Definition cs_c01_full_statement : Prop :=
   forall cfg st round tx r,
     cs_total (st_accts (cs_post st (cs_update_state cfg st round tx r))) = cs_total (st_accts st).
 
-Definition cs_c01_witness_cfg := {| cfg_fee := true; cfg_events := false; cfg_miner := 0 |}.
+Definition cs_c01_witness_cfg := {| cfg_fee := true; cfg_events := false; cfg_miner := 0; cfg_strict_ids := false |}.
 Definition cs_c01_witness_state :=
   {| st_accts := [(3, {| ac_bal := 1000; ac_nonce := 0; ac_txn := -1; ac_round := 0 |});
                   (4, {| ac_bal := 1000; ac_nonce := 0; ac_txn := -1; ac_round := 0 |})];
